@@ -260,7 +260,7 @@ func C11(r *vlib.Run) {
 			add(&c11Case{name: "fault/garbage", gen: be, popts: []string{""}, script: []string{`{"mode":"garbage"}`}, fail: true})
 			add(&c11Case{name: "fault/truncated", gen: be, popts: []string{""}, script: []string{`{"mode":"truncate","files":[{"name":"out/must_not_exist.txt","content":"some longer content to cut in the middle"}]}`}, fail: true})
 			add(&c11Case{name: "fault/second-plugin-fails", gen: be, popts: []string{"slot=first", "slot=second"}, script: []string{`{"mode":"ok","files":[{"name":"out/one.txt","content":"1"}]}`, `{"mode":"error","error":"second-says-no-zz"}`}, fail: true, warn: []string{"second-says-no-zz"}})
-			add(&c11Case{name: "fault/beyond-time-limit", gen: be, popts: []string{""}, script: []string{`{"mode":"ok","sleep_ms":25000,"files":[{"name":"out/must_not_exist.txt","content":"x"}]}`}, extra: []string{"--plugin-time-limit", "700ms"}, fail: true, killed: true})
+			add(&c11Case{name: "fault/beyond-time-limit", gen: be, popts: []string{""}, script: []string{`{"mode":"ok","sleep_ms":25000,"files":[{"name":"out/must_not_exist.txt","content":"x"}]}`}, extra: []string{"--plugin-time-limit", "2s"}, fail: true, killed: true})
 			add(&c11Case{name: "ok/within-time-limit", gen: be, popts: []string{""}, script: []string{`{"mode":"ok","sleep_ms":50,"files":[{"name":"out/slow.txt","content":"s"}]}`}, extra: []string{"--plugin-time-limit", "60s"}, files: map[string]string{"out/slow.txt": "s"}})
 		}
 	}
@@ -362,6 +362,11 @@ func c11Judge(r *vlib.Run, c *c11Case, p *idl.Program, texts map[string]string) 
 		if _, err := os.Stat(filepath.Join(rd, "started")); err != nil {
 			if si > 0 && c.fail {
 				continue
+			}
+			if c.killed && c.res.Exit != 0 {
+				// on a loaded machine the time limit can expire before the plugin has read its input
+				r.Inconclusive("the plugin was stopped by the time limit before it recorded anything")
+				return
 			}
 			bad("plugin-not-run/"+c.name, "the plugin was never started (slot '"+slot+"')")
 			continue
